@@ -40,6 +40,11 @@ def exactlen_rows(ctx):
             continue
         # the inner poll
         pe = [e for e in o.events if e["k"] == "call" and e["callee"].get("path") == "futures_core::Stream::poll_next"]
+        if len(pe) == 0:
+            out_kind, payload = poll_shape(o.value)
+            rows.append({"o": o, "kind": "return", "inner": "not-polled", "d": None, "out": out_kind, "payload": payload,
+                         "budget_after": self_field(ctx, o, budget), "B": B, "poll_ev": {"span": ctx.facts.bodies[pn]["span"]}})
+            continue
         if len(pe) != 1:
             rows.append({"o": o, "kind": "unrecognised", "why": "%d inner polls" % len(pe)})
             continue
@@ -93,7 +98,11 @@ def exactlen_table(ctx, rule):
         ik, ok = r["inner"], r["out"]
         inst = "%s->%s" % (ik, ok)
         bad = None
-        if ik is None:
+        if ik == "not-polled":
+            if ok in ("None", "Ok"):
+                bad = ("the stream %s without consulting the entity's stream: an over-long entity stream (extra chunk exactly at the announced length) "
+                       "would look like a complete body" % ("ends cleanly" if ok == "None" else "yields data"))
+        elif ik is None:
             bad = "inner poll result not fully matched"
         elif ik == "Pending":
             if ok != "Pending":
@@ -205,12 +214,12 @@ def once_taken(ctx, rule):
     if len(once) != 1 or pn is None:
         ctx.violation(rule, rule + "|shape", "UNRECOGNISED: no one-shot variant Option<Result<D, E>> in %s" % e["path"])
         return
-    outs = ctx.px(pn, inline=lambda c, d: True, key="all")
+    outs = ctx.px(pn, inline=lambda c, d: "::project" in (c.get("res_path") or ""), key="proj-only")
     n = 0
     for o in outs:
         if o.kind != "return":
             continue
-        takes = [ev for ev in o.events if ev["k"] == "call" and ev["callee"].get("path") == "std::option::Option::<T>::take"]
+        takes = [ev for ev in o.events if ev["k"] == "call" and ev["callee"].get("path") == "std::option::Option::<T>::take" and ev["fn"] == pn]
         if not takes:
             continue
         n += 1
